@@ -14,7 +14,7 @@ pub const FLOORS: &[&str] = &[
     "mut:multibyte", "mut:prefix", "mut:none", "mb_after:x", "mb_after:0x", "mb_after:#",
     "mb_after:.", "mb_after:r", "mb_after:quote", "mb_after:other", "operand_is:directive",
     "operand_is:break", "operand_is:string", "accepted", "rejected", "size:small", "operand_is:number_beyond_32_bits",
-    "line_starts_with:number_beyond_32_bits",
+    "line_starts_with:number_beyond_32_bits", "mut:invisible_first_char_short_file",
 ];
 
 const MB: &[&str] = &["\u{e9}", "\u{2713}", "\u{1F34B}", "\u{0301}", "\u{a0}", "\u{3000}", "\u{ff10}",
@@ -245,6 +245,9 @@ const SEEDS: &[&str] = &[
     // the second definition of a label whose first one sits on a line that emits nothing
     "start .orig x3000\nstart lea r0 start\nhalt", "loop .break\nloop add r0 r0 #1", "a\n.break\na halt", "e .end\ne halt",
     "z .orig x3000\n.break\nz .break\nz halt", "dup\ndup halt", "dup .fill x1\ndup .fill x2\ndup .fill x3",
+    // a byte order mark (and other invisible characters) in front of very short files
+    "\u{feff}", "\u{feff}halt", "\u{feff}r1\n", "\u{feff}ab", "\u{feff}ab;\u{2192}\nhalt\n", "\u{feff}x30", "\u{feff}#1", "\u{feff}.orig x3000", "\u{feff}\"s",
+    "\u{feff}; c", "\u{feff}\nhalt", "\u{feff}lab halt\nbr lab", "\u{200b}halt", "\u{feff}\u{feff}halt", "halt\u{feff}", "\u{feff}add r0 r0 \u{e9}",
     // string literals ended by the end of the file, after other text
     "halt\ns .stringz \"no end", "lea r0 s\ns .stringz \"caf\u{e9}", "add r0 r0 #1 \"", ".stringz \"a\\", "x .stringz \"\r",
 ];
@@ -275,7 +278,14 @@ pub fn gen_text(rng: &mut Rng, i: u64) -> (String, Vec<String>) {
     let p = gen_program(rng, &o);
     let lay = if rng.bool() { Layout::canonical() } else { Layout::random(rng) };
     let base = render(&p, &lay, rng).text;
-    let m = mutate(&base, rng);
+    let mut m = mutate(&base, rng);
+    if rng.chance(1, 30) {
+        // an invisible first character, and a file that ends right after its first token or two
+        let keep = 1 + rng.below(9) as usize;
+        let head: String = m.text.trim_start().chars().take(keep).collect();
+        m.text = format!("{}{}", rng.s(&["\u{feff}", "\u{200b}", "\u{feff}\u{feff}", "\u{a0}"]), head);
+        m.classes.push("mut:invisible_first_char_short_file".into());
+    }
     (m.text, m.classes)
 }
 
@@ -386,7 +396,7 @@ fn clip(s: &str) -> String {
 
 // ---------------------------------------------------------------- size extremes
 
-pub const SIZE_FLOORS: &[&str] = &["size:blkw_ffff", "size:long_string", "size:distance_8000", "size:over_64k_statements", "size:literal_offset_far_line", "size:many_comment_lines", "size:many_blank_lines", "size:long_line"];
+pub const SIZE_FLOORS: &[&str] = &["size:blkw_ffff", "size:long_string", "size:distance_8000", "size:over_64k_statements", "size:literal_offset_far_line", "size:last_line_of_a_full_program", "size:many_comment_lines", "size:many_blank_lines", "size:long_line"];
 
 pub fn size_cases() -> Vec<(String, String)> {
     let mut v: Vec<(String, String)> = Vec::new();
@@ -432,6 +442,25 @@ pub fn size_cases() -> Vec<(String, String)> {
             v.push((
                 format!("size:literal_offset_far_line pad {:#x} {} #{}", pad, mn, off),
                 format!(".blkw x{:X}\n{} #{}\nhalt\n", pad, mn, off),
+            ));
+        }
+    }
+    // ... and as the very last statement of a program of exactly 65535 (and 65534) words
+    for pad in [0xFFFDusize, 0xFFFE] {
+        for (mn, off) in [("br", 0i32), ("brz", -1), ("ld r1", 3), ("ldi r1", -3), ("lea r2", 0), ("st r3", -256), ("sti r3", 255), ("jsr", 0), ("jsr", -1024)] {
+            v.push((
+                format!("size:last_line_of_a_full_program pad {:#x} {} #{}", pad, mn, off),
+                format!(".blkw x{:X}\n{} #{}\n", pad, mn, off),
+            ));
+        }
+        for mn in ["br", "ld r1", "lea r2", "st r3", "jsr"] {
+            v.push((
+                format!("size:last_line_of_a_full_program pad {:#x} {} label", pad, mn),
+                format!(".blkw x{:X}\nt {} t\n", pad, mn),
+            ));
+            v.push((
+                format!("size:last_line_of_a_full_program pad {:#x} {} label before", pad, mn),
+                format!(".blkw x{:X}\nt .fill x0\n{} t", pad - 1, mn),
             ));
         }
     }
